@@ -19,10 +19,11 @@
 (* angles) so that the branching factor stays small: breadth-first search  *)
 (* enumerates ALL programs up to MaxLen, -simulate draws long ones.        *)
 (***************************************************************************)
-EXTENDS Qelib1, Json, FiniteSets
+EXTENDS Qelib1, Json, FiniteSets, SequencesExt
 CONSTANTS NQ,        \* qubits
           Ang1,      \* lattice angles for one-parameter gates
-          Ang2,      \* grid for the 2/3/4-parameter gates
+          Ang2,      \* values for the 2/3/4-parameter gates: parameter tuples are cyclic shifts of the sorted values
+          NTup,      \* number of cyclic shifts used (pairwise distinct parameters expose argument-order slips)
           MaxLen,    \* statements per program
           MaxAnc,    \* measure + reset statements per program
           Kinds,     \* subset of {"gate", "meas", "reset", "cond", "ifelse"}
@@ -35,7 +36,9 @@ ModAtoms == {QgMod("adj", 0, <<>>), QgMod("pow", 2, <<>>), QgMod("pow", 3, <<>>)
 ModStacks == {<<>>} \cup {<<m>> : m \in ModAtoms} \cup (IF Depth2 THEN {<<m1, m2>> : m1 \in ModAtoms, m2 \in ModAtoms} ELSE {})
 QgNCtrl(ms) == Cardinality({i \in 1..Len(ms) : ms[i].t = "ctrl"})
 QgInj(k) == {w \in [1..k -> 1..NQ] : \A i \in 1..k : \A j \in 1..k : i # j => w[i] # w[j]}
-QgParams(q) == IF QNParams(q) = 0 THEN {<<>>} ELSE IF QNParams(q) = 1 THEN {<<a>> : a \in Ang1} ELSE [1..QNParams(q) -> Ang2]
+QgV == SetToSortSeq(Ang2, LAMBDA a, b : a < b)
+QgParams(q) == IF QNParams(q) = 0 THEN {<<>>} ELSE IF QNParams(q) = 1 THEN {<<a>> : a \in Ang1}
+               ELSE {[i \in 1..QNParams(q) |-> QgV[((s + i - 2) % Len(QgV)) + 1]] : s \in 1..NTup}
 
 QgBlank == [q |-> "id", p |-> <<>>, w |-> <<>>, mods |-> <<>>]
 NoCond == [cw |-> <<>>, cv |-> <<>>, els |-> FALSE, pend |-> FALSE]
